@@ -974,6 +974,9 @@ func panicInVanguard(stack string) bool {
 		if strings.HasPrefix(l, "runtime.") || strings.HasPrefix(l, "runtime/") {
 			continue
 		}
+		if strings.Contains(l, "verifbench.(*trackedDecomp)") || strings.Contains(l, "verifbench.(*trackedComp)") || strings.Contains(l, "verifbench.(*zlibDecomp)") {
+			continue // the bookkeeping (de)compressors only pass calls through: whoever called them is responsible
+		}
 		if strings.Contains(l, "internal/verifbench") {
 			return false
 		}
